@@ -14,4 +14,4 @@ import XPathV.Theorems.C12
 #print axioms XPathV.Theorems.C12.C12_all_iterators_refine_sequence
 #print axioms XPathV.Theorems.C12.C12_exhausted_for_ever
 #print axioms XPathV.Theorems.C12.C12_moveNext_current
-#print axioms XPathV.Theorems.C12.C12_all_iterators_refine_sequence'
+#print axioms XPathV.Theorems.C12.C12_all_iterators_refine_sequence_any_predicate
